@@ -328,3 +328,114 @@ pub fn run_pearson<F: Float>(case: &Case, viols: &mut Sink) -> Cnt {
     }
     cnt
 }
+
+// ---------------------------------------------------------------------------------------------
+// translation: all points moved by a common offset per coordinate (silhouette), every column moved by
+// its own offset (Pearson). Reference = the definition on the centred values (exact subtraction).
+// ---------------------------------------------------------------------------------------------
+
+pub fn run_sil_shifted<F: Float>(outer: &Case, float: &str, points: &[Vec<f64>], labels: &[usize], offset: f64, step: f64, viols: &mut Sink) -> Cnt {
+    let mut cnt = Cnt::default();
+    let n = points.len();
+    let d = points[0].len();
+    // coordinate j is moved to offset * (1 + 9.8 * (j mod 2)) (e.g. 500000 and 5400000)
+    let off = |j: usize| offset * (1.0 + 9.8 * (j % 2) as f64);
+    let rec: Array2<F> = Array2::from_shape_fn((n, d), |(i, j)| F::cast(off(j) + step * points[i][j]));
+    let centred: Vec<Vec<f64>> = (0..n).map(|i| (0..d).map(|j| rec[(i, j)].to_f64().unwrap() - off(j)).collect()).collect();
+    if !silhouette_in_domain(&centred, labels) {
+        cnt.ood += 1;
+        cnt.bump("shift.silhouette_out_of_domain_after_rounding", 1);
+        return cnt;
+    }
+    let tol = sil_tol(float);
+    let exp = ref_silhouette(&centred, labels);
+    cnt.evals += 1;
+    cnt.nontrivial += 1;
+    cnt.bump("shift.silhouette_cases", 1);
+    cnt.bump("shift.values_compared", 1);
+    let l = Array1::from(labels.to_vec());
+    let r = sil_subject::<F>(rec.view(), l.view());
+    let ok = matches!(&r, Ok(v) if closef(*v, exp, tol, tol * 1e-3, 1.0));
+    if !ok {
+        report!(
+            viols,
+            "silhouette.translation_dependence",
+            outer,
+            json!({"metric": "silhouette_score", "offset": offset, "step": step}),
+            "silhouette_score of the points moved to ({:e}, {:e}, ...) + {} * point = {:?}; the definition on the centred points gives {}",
+            off(0),
+            off(1),
+            step,
+            r,
+            exp
+        );
+    }
+    cnt
+}
+
+pub fn run_pearson_shifted<F: Float>(outer: &Case, float: &str, cols: &[Vec<f64>], offset: f64, step: f64, viols: &mut Sink) -> Cnt {
+    let mut cnt = Cnt::default();
+    let m = cols.len();
+    let n = cols[0].len();
+    let tol = if float == "f32" { 1e-4 } else { 1e-9 };
+    let u = if float == "f32" { f32::EPSILON as f64 / 2.0 } else { f64::EPSILON / 2.0 };
+    // even columns sit at the offset, odd columns at a thousandth of it
+    let off = |j: usize| if j % 2 == 0 { offset } else { offset * 1e-3 };
+    let data: Array2<F> = Array2::from_shape_fn((n, m), |(i, j)| F::cast(off(j) + step * cols[j][i]));
+    let centred: Vec<Vec<f64>> = (0..m).map(|j| (0..n).map(|i| data[(i, j)].to_f64().unwrap() - off(j)).collect()).collect();
+    if n < 2 || centred.iter().any(|c| c.iter().all(|x| *x == c[0])) {
+        cnt.ood += 1;
+        return cnt;
+    }
+    let exp = ref_pearson(&centred);
+    cnt.evals += 1;
+    cnt.nontrivial += 1;
+    cnt.bump("shift.pearson_cases", 1);
+    cnt.bump("shift.values_compared", exp.len() as u64);
+    // conditioning of the two-pass definition: the column mean carries delta_j <= n u |offset_j|, which
+    // enters covariance and variances as n * delta_i * delta_j
+    let var: Vec<f64> = centred
+        .iter()
+        .map(|c| {
+            let mu = c.iter().sum::<f64>() / n as f64;
+            c.iter().map(|x| (x - mu) * (x - mu)).sum::<f64>()
+        })
+        .collect();
+    let delta: Vec<f64> = (0..m).map(|j| n as f64 * u * (off(j).abs() + 1.0)).collect();
+    let r = guarded(|| {
+        let ds = DatasetBase::from(data.view());
+        ds.pearson_correlation().get_coeffs().iter().map(|x| x.to_f64().unwrap()).collect::<Vec<f64>>()
+    });
+    let mut k = 0;
+    let mut bad: Option<String> = None;
+    match &r {
+        Ok(v) if v.len() == exp.len() => {
+            for i in 0..m {
+                for j in i + 1..m {
+                    let cond = 4.0 * n as f64 * (delta[i] * delta[i] / var[i] + delta[j] * delta[j] / var[j]);
+                    if !closef(v[k], exp[k], tol, tol + cond, 1.0) {
+                        bad = Some(format!("coefficient ({}, {}) = {}, definition on the centred columns {} (allowed {:e})", i, j, v[k], exp[k], 2.0 * tol + cond));
+                    }
+                    k += 1;
+                }
+            }
+        }
+        other => bad = Some(format!("{:?}", other)),
+    }
+    if let Some(b) = bad {
+        report!(
+            viols,
+            "pearson.translation_dependence",
+            outer,
+            json!({"metric": "pearson", "offset": offset, "step": step}),
+            "pearson coefficients of the columns moved to {:e} / {:e} + {} * value: {}; all {:?} vs {:?}",
+            off(0),
+            off(1),
+            step,
+            b,
+            r,
+            exp
+        );
+    }
+    cnt
+}
